@@ -18,3 +18,14 @@ Theorem C15_alias_bound_before_acl_refuted :
     let '(_, v2) := alias_pub_early allowed tbl1 (fst (nth 1 ps (None, 0%N))) (snd (nth 1 ps (None, 0%N))) in
     v1 = ADenied /\ v2 = ARouted 9%N.
 Proof. exists [(Some 9%N, 1%N); (None, 1%N)]. vm_compute. split; reflexivity. Qed.
+
+(* binding the alias only when the publish was authorised (the shape the code had) keeps the ACL intact but breaks
+   the alias: (topic 1, alias 1) is routed, (topic 9, alias 1) is refused, and the alias-only publish that follows -
+   which names topic 9 - is routed to topic 1 *)
+Theorem C15_alias_bound_only_if_authorised_refuted :
+  exists ps, let allowed := fun t => negb (N.eqb t 9) in
+    let '(tbl1, v1) := alias_pub_guarded allowed [] (fst (hd (None, 0%N) ps)) (snd (hd (None, 0%N) ps)) in
+    let '(tbl2, v2) := alias_pub_guarded allowed tbl1 (fst (nth 1 ps (None, 0%N))) (snd (nth 1 ps (None, 0%N))) in
+    let '(_, v3) := alias_pub_guarded allowed tbl2 (fst (nth 2 ps (None, 0%N))) (snd (nth 2 ps (None, 0%N))) in
+    v1 = ARouted 1%N /\ v2 = ADenied /\ v3 = ARouted 1%N.
+Proof. exists [(Some 1%N, 1%N); (Some 9%N, 1%N); (None, 1%N)]. vm_compute. repeat split. Qed.
